@@ -173,6 +173,7 @@ pub proof fn lemma_last_noncont_range(s: Seq<u8>, j: int)
     invariant
         0 <= i < data@.len(),
         last_noncont(data@, data@.len() - 1) == last_noncont(data@, i as int),
+    ensures i == 0 || !is_cont(data@[i as int]), // (stated so that an equivalent `loop { if !c { break } .. }` form verifies too)
     decreases i,
 //@ before let first_byte = data[i];
     proof {
